@@ -162,6 +162,43 @@ var Seeds = map[string]string{
            "filter_arg": ["0x00000000000000000000000000000000000000bb"]}]}]}
   }]
 }`,
+	// three integrations sharing ONE table, each with its own table definition: different
+	// column sets, the second with unique and index lists, the third with columns only it
+	// declares.  config.Migrate migrates every integration's wpg.Table (create table / create
+	// [unique] index / alter table add column for each), config.DDL unites them: the table
+	// definition of EVERY integration is spliced, not only the first one naming the table.
+	"shared": `{
+  "pg_url": "postgres:///shovel",
+  "eth_sources": [{"name": "scroll", "chain_id": 534352, "url": "http://127.0.0.1:8545"}],
+  "integrations": [{
+    "name": "pooltx", "enabled": true,
+    "sources": [{"name": "scroll", "start": 6, "stop": 6}],
+    "table": {"name": "pool_t", "columns": [{"name": "txh", "type": "bytea"}]},
+    "block": [{"name": "tx_hash", "column": "txh"}]
+  }, {
+    "name": "poollog", "enabled": true,
+    "sources": [{"name": "scroll", "start": 6, "stop": 6}],
+    "table": {"name": "pool_t",
+      "columns": [{"name": "txh", "type": "bytea"}, {"name": "swapper", "type": "bytea"}, {"name": "vol", "type": "numeric"}],
+      "unique": [["ig_name", "src_name", "block_num", "tx_idx", "log_idx", "abi_idx"], ["swapper", "vol"]],
+      "index": [["swapper"], ["vol desc", "swapper asc"]]},
+    "block": [{"name": "tx_hash", "column": "txh"}],
+    "event": {"name": "Swap", "type": "event",
+      "inputs": [{"indexed": true, "name": "who", "type": "address", "column": "swapper"},
+                 {"name": "amt", "type": "uint256", "column": "vol"}]}
+  }, {
+    "name": "poolfee", "enabled": true,
+    "sources": [{"name": "scroll", "start": 6, "stop": 6}],
+    "table": {"name": "pool_t",
+      "columns": [{"name": "payer", "type": "bytea"}, {"name": "fee", "type": "numeric"}, {"name": "memo2", "type": "text"}],
+      "index": [["payer"]]},
+    "notification": {"columns": ["payer"]},
+    "event": {"name": "Fee", "type": "event",
+      "inputs": [{"indexed": true, "name": "p", "type": "address", "column": "payer"},
+                 {"name": "f", "type": "uint256", "column": "fee"},
+                 {"name": "m", "type": "string", "column": "memo2"}]}
+  }]
+}`,
 	"txtrace": `{
   "pg_url": "postgres:///shovel",
   "eth_sources": [{"name": "gnosis", "chain_id": 100, "url": "http://127.0.0.1:8545"}],
@@ -190,7 +227,7 @@ var Seeds = map[string]string{
 }
 
 // SeedOrder fixes the iteration order.
-var SeedOrder = []string{"erc20", "refs", "nested", "txtrace", "reftable", "oddcomps"}
+var SeedOrder = []string{"erc20", "refs", "nested", "txtrace", "reftable", "oddcomps", "shared"}
 
 // Markers planted into configuration positions.  Hostile = contains a
 // character outside letters, digits, '_' and '-'.
